@@ -210,6 +210,8 @@ class StreamOut:
         self.expected = []      # bytes that must come out of the stream, in order
         self.consumed = []      # bytes that did come out
         self.flags = []         # (first, last) seen with each consumed byte
+        self.tainted_at = None  # len(expected) when an overflow-prone packet was acknowledged
+        self._ambiguous = False
 
     def consume(self, byte, first, last, t):
         self.consumed.append(byte)
@@ -219,13 +221,12 @@ class StreamOut:
         return len(self.expected) - len(self.consumed)
 
     def expect_data(self, pid_toggle, payload, occ_at_start):
+        self._ambiguous = self.tainted_at is not None or occ_at_start + len(payload) > self.depth
         if self.unknown_toggle:
-            return [ACK, NAK] if occ_at_start + len(payload) > self.depth else [ACK]
+            return [ACK, NAK] if self._ambiguous else [ACK]
         if pid_toggle != self.toggle:
             return [ACK]
-        if occ_at_start + len(payload) <= self.depth:
-            return [ACK]
-        return [ACK, NAK]
+        return [ACK, NAK] if self._ambiguous else [ACK]
 
     def update_data(self, pid_toggle, payload, resp):
         if self.unknown_toggle:
@@ -233,11 +234,16 @@ class StreamOut:
             # this one packet; callers avoid OUT traffic in that state (only bus resets create it).
             raise HarnessError("OUT data while the endpoint toggle is unspecified")
         if resp == ACK and pid_toggle == self.toggle:
-            self.expected.extend(payload)
             self.toggle ^= 1
+            if self._ambiguous and self.tainted_at is None:
+                # Whether a packet that may not fit is acknowledged-and-delivered, acknowledged-and-dropped or
+                # NAKed is C13's subject (a defect of that kind exists); from here on only the toggle is modelled.
+                self.tainted_at = len(self.expected)
+            if self.tainted_at is None:
+                self.expected.extend(payload)
 
     def expect_ping(self, occ_at_tok_end):
-        if occ_at_tok_end <= self.depth - self.mps:
+        if self.tainted_at is None and occ_at_tok_end <= self.depth - self.mps:
             return [ACK]
         return [ACK, NAK]
 
@@ -246,13 +252,19 @@ class StreamOut:
         self.unknown_toggle = False
 
     def stream_error(self):
-        n = len(self.consumed)
-        if self.consumed != self.expected[:n]:
+        """Delivered bytes must be exactly the acknowledged in-sequence payloads, in order (checked up to the
+        point where an overflow-prone packet made the expectation unknowable)."""
+        n = min(len(self.consumed), len(self.expected))
+        if self.consumed[:n] != self.expected[:n]:
             for i, (a, b) in enumerate(zip(self.consumed, self.expected)):
                 if a != b:
                     return f"byte {i} delivered {a:#04x}, expected {b:#04x}"
-            return f"{n} bytes delivered but only {len(self.expected)} were acknowledged"
+        if self.tainted_at is None and len(self.consumed) > len(self.expected):
+            return f"{len(self.consumed)} bytes delivered but only {len(self.expected)} were acknowledged"
         return None
+
+    def complete(self):
+        return self.tainted_at is not None or len(self.consumed) == len(self.expected)
 
 
 class Ctrl:
@@ -307,6 +319,10 @@ class DeviceModel:
         ep = self.eps.get((epnum, "out"))
         return ep.toggle if ep is not None else 0
 
+    def toggles(self):
+        """{(number, direction): toggle of the next new packet (IN) / expected toggle (OUT)}"""
+        return {k: (e.pid if hasattr(e, "pid") else e.toggle) for k, e in self.eps.items()}
+
     def _apply(self, c):
         bm, breq, wvalue, windex, wlength = c.req
         if c.name == "set_address":
@@ -318,7 +334,7 @@ class DeviceModel:
         elif c.name == "clear_halt":
             key = (windex & 0xF, "in" if windex & 0x80 else "out")
             ep = self.eps.get(key)
-            self.events.append(("clear_halt", key))
+            self.events.append(("clear_halt", (key, self.toggles())))
             if ep is not None:
                 ep.clear_halt()
 
@@ -381,6 +397,9 @@ class DeviceModel:
         if kind == "ping":
             raise HarnessError("PING to endpoint 0 is never generated (full speed)")
         name = c.name
+        if c.stalled:
+            # the transfer has been STALLed; the statements only require that nothing else is answered
+            return [STALL, NONE], f"{kind.upper()} after the STALL of {name}", None
         if kind == "in":
             if c.stage == "data_in":
                 if c.kind == "get":
